@@ -527,7 +527,7 @@ def primary_props(props, group):
 
 def clause_props(unit, clause):
     pr = set(unit.props)
-    if getattr(unit, "group", "") in ("pp_table", "pp_number"):
+    if getattr(unit, "group", "") in ("pp_table", "pp_number", "synonym"):
         pr = pr | {"C11"}      # C11: the lowered instruction does not depend on the spelling / the notation of a constant
     if clause == "total":
         return pr | {"C09"}
@@ -541,7 +541,7 @@ def clause_props(unit, clause):
 def unit_serves(unit, pid):
     if pid in unit.props or pid == "C09":
         return True
-    if pid == "C11" and getattr(unit, "group", "") in ("pp_table", "pp_number"):
+    if pid == "C11" and getattr(unit, "group", "") in ("pp_table", "pp_number", "synonym"):
         return True
     if pid == "C04" and unit.klass == "M" and unit.kind == "production" and "mem.frame" in unit.clauses:
         return True
